@@ -73,7 +73,7 @@ pub(crate) fn same_placement(a: &Board, b: &Board) -> bool {
 
 // ------------------------------------------------------------------------------------------ accessors
 
-// @ob id=O3.3a props=C03,C08 tier=quick kind=proof fn="Board::xor" desc="xor(piece,{sq},colour) toggles exactly bit sq in pieces[piece], color_combined[colour] and combined, toggles exactly the Zobrist key of (piece,sq,colour) in the hash, and changes nothing else; for every raw board state, piece, square, colour; unchecked indices in bounds"
+// @ob id=O3.3a props=C03 also=C08 tier=quick kind=proof fn="Board::xor" desc="xor(piece,{sq},colour) toggles exactly bit sq in pieces[piece], color_combined[colour] and combined, toggles exactly the Zobrist key of (piece,sq,colour) in the hash, and changes nothing else; for every raw board state, piece, square, colour; unchecked indices in bounds"
 #[kani::proof]
 fn c03_xor_frame() {
     let b0 = any_raw_board();
@@ -133,7 +133,7 @@ fn c03_accessors() {
     assert!(*b.pinned() == b.pinned && *b.checkers() == b.checkers);
 }
 
-// @ob id=O3.4 props=C03,C08 tier=quick kind=proof fn="PartialEq for Board (derived)" desc="determinacy: two boards are == exactly when placement, side, rights, en-passant, checkers, pinned and hash field agree; hence two boards that satisfy the representation invariant (checkers/pinned/hash are functions of the position) and show the same position are =="
+// @ob id=O3.4 props=C03 also=C08 tier=quick kind=proof fn="PartialEq for Board (derived)" desc="determinacy: two boards are == exactly when placement, side, rights, en-passant, checkers, pinned and hash field agree; hence two boards that satisfy the representation invariant (checkers/pinned/hash are functions of the position) and show the same position are =="
 #[kani::proof]
 fn c03_eq_determinacy() {
     let a = any_raw_board();
@@ -150,7 +150,7 @@ fn c03_eq_determinacy() {
 
 // ------------------------------------------------------------------------------------------ check / pin
 
-// @ob id=O3.1 props=C03,C18,C07 tier=quick kind=proof gen=king qsel=16 unwind=30 weight=light stubs=geom fn="Board::update_pin_info" desc="for the fixed king square and EVERY placement satisfying the occupancy invariant: afterwards checkers = exactly the enemy men attacking the king and pinned = exactly the lone men between the king and an aligned enemy slider (eight ray walks from the king, first and second blocker), nothing else changes; table accessors replaced by the closed forms that O16.1/3/4/5 prove equal to them on the real tables; loop unwinding assertion on (complete for the case)"
+// @ob id=O3.1 props=C03 also=C18,C07 tier=quick kind=proof gen=king qsel=8 unwind=30 weight=light stubs=geom fn="Board::update_pin_info" desc="for the fixed king square and EVERY placement satisfying the occupancy invariant: afterwards checkers = exactly the enemy men attacking the king and pinned = exactly the lone men between the king and an aligned enemy slider (eight ray walks from the king, first and second blocker), nothing else changes; table accessors replaced by the closed forms that O16.1/3/4/5 prove equal to them on the real tables; loop unwinding assertion on (complete for the case)"
 fn c03_update_pin_info(kc: usize, ksq: u8) {
     let mut b = any_board_king(kc, ksq);
     kani::assume(b.side_to_move.to_index() == kc);
@@ -164,7 +164,7 @@ fn c03_update_pin_info(kc: usize, ksq: u8) {
     kani::cover!(ch != 0 && pin != 0);
 }
 
-// @ob id=S1.4 props=C03,C18,C04 tier=quick kind=lemma cache=yes fn="spec: s_check_pin,s_attacked" desc="code-independent, kings not adjacent: the checkers set of s_check_pin is non-empty exactly when the king of the side to move is attacked (flood-fill definition), and it equals the set of attackers seen from the king"
+// @ob id=S1.4 props=C03 also=C18,C04 tier=quick kind=lemma cache=yes fn="spec: s_check_pin,s_attacked" desc="code-independent, kings not adjacent: the checkers set of s_check_pin is non-empty exactly when the king of the side to move is attacked (flood-fill definition), and it equals the set of attackers seen from the king"
 #[kani::proof]
 #[kani::unwind(9)]
 fn spec_checkers_iff_in_check() {
@@ -340,7 +340,7 @@ fn c02_mmn_hash() {
     check_hash_coordinate(b.hash, &pos, &r, probe);
 }
 
-// @ob id=O2.1e props=C02,C06 tier=quick kind=proof weight=light fn="Board::make_move_new,Board::set_ep" desc="en-passant lower bound: after any double pawn push, if a pawn of the side now to move could LEGALLY capture the pushed pawn en passant (own king not exposed afterwards — flood-fill attack spec), the opportunity is recorded; symbolic king, all placements. Same frame assumption as O2.1a"
+// @ob id=O2.1e props=C02 also=C06 tier=quick kind=proof weight=light fn="Board::make_move_new,Board::set_ep" desc="en-passant lower bound: after any double pawn push, if a pawn of the side now to move could LEGALLY capture the pushed pawn en passant (own king not exposed afterwards — flood-fill attack spec), the opportunity is recorded; symbolic king, all placements. Same frame assumption as O2.1a"
 #[kani::proof]
 #[kani::unwind(9)]
 #[kani::stub(crate::magic::get_bishop_rays, crate::vstubs::no_rays)]
@@ -372,7 +372,7 @@ pub(crate) fn pre_move_king(kc: usize, ksq: u8) -> (Board, sp::Pos, ChessMove, s
     (b, pos, m, mv)
 }
 
-// @ob id=O2.1b props=C02,C03 tier=quick kind=proof gen=king qsel=8 unwind=30 weight=light stubs=geom fn="Board::make_move_new" desc="opponent king fixed on the instance square: for every placement and rule-obeying move, the incrementally computed checkers/pinned of the result equal the from-scratch eight-ray-walk spec of the result position (C03: check and pin information matches the position after every move)"
+// @ob id=O2.1b props=C02,C03 tier=quick kind=proof gen=king qsel=4 unwind=30 weight=light stubs=geom fn="Board::make_move_new" desc="opponent king fixed on the instance square: for every placement and rule-obeying move, the incrementally computed checkers/pinned of the result equal the from-scratch eight-ray-walk spec of the result position (C03: check and pin information matches the position after every move)"
 fn c02_mmn_checkpin(kc: usize, ksq: u8) {
     let (b, _pos, m, _mv) = pre_move_king(kc, ksq);
     let r = b.make_move_new(m);
@@ -430,7 +430,7 @@ fn c02_mm_same_ep() {
     assert!(out.en_passant == r.en_passant);
 }
 
-// @ob id=O2.2b props=C02,C03 tier=quick kind=proof gen=king qsel=8 unwind=30 weight=light stubs=geom fn="Board::make_move" desc="second entry point, opponent king fixed: checkers/pinned of the output board equal the from-scratch spec of the output position, any prior output board. Together with O2.2a/h/e and O2.1a/h/b: both entry points produce == results"
+// @ob id=O2.2b props=C02 also=C03 tier=quick kind=proof gen=king qsel=4 unwind=30 weight=light stubs=geom fn="Board::make_move" desc="second entry point, opponent king fixed: checkers/pinned of the output board equal the from-scratch spec of the output position, any prior output board. Together with O2.2a/h/e and O2.1a/h/b: both entry points produce == results"
 fn c02_mm_checkpin(kc: usize, ksq: u8) {
     let (b, _pos, m, _mv) = pre_move_king(kc, ksq);
     let mut out = any_raw_board();
@@ -460,7 +460,7 @@ pub(crate) fn upi_spec(b: &mut Board) {
     b.pinned = BitBoard(p);
 }
 
-// @ob id=O18.1 props=C18,C08 tier=quick kind=proof weight=light fn="Board::null_move" desc="for every placement (occupancy invariant, kings not adjacent, checkers field = attackers of the mover's king), with or without en-passant state: null_move is refused exactly when the side to move is in check (flood-fill attack spec); otherwise the result has identical placement, castle rights and hash field, the other side to move, no en-passant state, and checkers/pinned equal to the from-scratch spec of the RESULT position; the source board is untouched. The callee update_pin_info is used through its contract O3.1 (stand-in upi_spec)"
+// @ob id=O18.1 props=C18 also=C08 tier=quick kind=proof weight=light fn="Board::null_move" desc="for every placement (occupancy invariant, kings not adjacent, checkers field = attackers of the mover's king), with or without en-passant state: null_move is refused exactly when the side to move is in check (flood-fill attack spec); otherwise the result has identical placement, castle rights and hash field, the other side to move, no en-passant state, and checkers/pinned equal to the from-scratch spec of the RESULT position; the source board is untouched. The callee update_pin_info is used through its contract O3.1 (stand-in upi_spec)"
 #[kani::proof]
 #[kani::unwind(9)]
 #[kani::stub(crate::board::Board::update_pin_info, upi_spec)]
@@ -624,7 +624,7 @@ fn c05_is_sane_exact() {
     kani::cover!(r && b.en_passant.is_some());
 }
 
-// @ob id=O7.4 props=C07,C01 tier=quick kind=proof weight=light fn="Board::is_sane,MoveList capacity" desc="every board the gatekeeper accepts leaves room in the fixed-capacity move list: men of either side + 2 (one slot per man plus at most two en-passant captures — the slot bound the move-generation obligations rely on for every push_unchecked) never exceeds the real capacity of NoDrop<ArrayVec<SquareAndBitBoard,N>>; for EVERY raw board"
+// @ob id=O7.4 props=C07 also=C01 tier=quick kind=proof weight=light fn="Board::is_sane,MoveList capacity" desc="every board the gatekeeper accepts leaves room in the fixed-capacity move list: men of either side + 2 (one slot per man plus at most two en-passant captures — the slot bound the move-generation obligations rely on for every push_unchecked) never exceeds the real capacity of NoDrop<ArrayVec<SquareAndBitBoard,N>>; for EVERY raw board"
 #[kani::proof]
 #[kani::unwind(9)]
 #[kani::stub(crate::board::Board::update_pin_info, upi_spec)]
@@ -652,7 +652,7 @@ fn spec_valid_implies_sane() {
     assert!(sp::s_sane(&pos, pos.occ()));
 }
 
-// @ob id=S5.1 props=C05,C01 tier=quick kind=lemma cache=yes weight=light fn="spec: s_valid_core,s_legal,s_apply" desc="code-independent step lemma behind 'legal play stays within valid positions': for every valid position (cardinality clauses aside) and every legal move, the rule-prescribed successor is again valid — one king per side, no pawn on the first or last rank, castle rights still backed, en-passant state consistent, and the side that just moved is not in check. With O2.1a/O2.2a (code result == successor), O5.1 and S1.5 the library's own sanity check accepts every reachable position; the cardinality clauses follow from the structural monotonicity clauses of O2.1a"
+// @ob id=S5.1 props=C05 also=C01 tier=quick kind=lemma cache=yes weight=light fn="spec: s_valid_core,s_legal,s_apply" desc="code-independent step lemma behind 'legal play stays within valid positions': for every valid position (cardinality clauses aside) and every legal move, the rule-prescribed successor is again valid — one king per side, no pawn on the first or last rank, castle rights still backed, en-passant state consistent, and the side that just moved is not in check. With O2.1a/O2.2a (code result == successor), O5.1 and S1.5 the library's own sanity check accepts every reachable position; the cardinality clauses follow from the structural monotonicity clauses of O2.1a"
 #[kani::proof]
 #[kani::unwind(9)]
 fn spec_legal_step_keeps_valid() {
@@ -685,7 +685,7 @@ pub(crate) fn any_builder() -> BoardBuilder {
     bb
 }
 
-// @ob id=O7.1 props=C07,C06,C08 tier=quick kind=proof weight=medium fn="TryFrom<&BoardBuilder> for Board,Board::set_ep,Board::add_castle_rights,BoardBuilder::get_en_passant" desc="for a FULLY symbolic builder (any of 13 contents on each of the 64 squares, any side, rights, en-passant file — far more men than a chess set included): the conversion never panics and never reads out of bounds; Ok(b) exactly when the gatekeeper spec holds of the assembled board; then b's placement is the builder's placement square by square, side and rights are the builder's, the en-passant square is the builder's file on the double-push rank of the side that just moved and is recorded exactly when a pawn of the side to move stands beside it, and checkers/pinned equal the from-scratch spec. Callees update_pin_info / is_sane are used through their contracts O3.1 / O5.1"
+// @ob id=O7.1 props=C07 also=C06,C08 tier=quick kind=proof weight=medium fn="TryFrom<&BoardBuilder> for Board,Board::set_ep,Board::add_castle_rights,BoardBuilder::get_en_passant" desc="for a FULLY symbolic builder (any of 13 contents on each of the 64 squares, any side, rights, en-passant file — far more men than a chess set included): the conversion never panics and never reads out of bounds; Ok(b) exactly when the gatekeeper spec holds of the assembled board; then b's placement is the builder's placement square by square, side and rights are the builder's, the en-passant square is the builder's file on the double-push rank of the side that just moved and is recorded exactly when a pawn of the side to move stands beside it, and checkers/pinned equal the from-scratch spec. Callees update_pin_info / is_sane are used through their contracts O3.1 / O5.1"
 #[kani::proof]
 #[kani::unwind(66)]
 #[kani::stub(crate::board::Board::update_pin_info, upi_spec)]
@@ -767,11 +767,11 @@ pub(crate) fn any_fresh_gen(_b: &Board) -> MoveGen {
 pub(crate) fn any_small_fresh_gen(b: &Board) -> MoveGen {
     let g = any_fresh_gen(b);
     let s = crate::movegen::k_movegen::last_gen_snapshot();
-    kani::assume(s.0[0].1.count_ones() <= 2 && s.0[1].1.count_ones() <= 2 && s.0[2].1.count_ones() <= 1);
+    kani::assume(s.0[0].1.count_ones() <= 2 && s.0[1].1.count_ones() <= 1 && s.0[2].1.count_ones() <= 1);
     g
 }
 
-// @ob id=O1.9 props=C01 tier=quick kind=bounded weight=light bound="generator with at most 3 slots of at most 2,2,1 destinations standing for the legal-move list" fn="Board::legal" desc="the single-move legality query answers true exactly for the (source, destination, promotion) triples the generator would yield — promotion slots yield exactly the four promotion pieces, other slots exactly promotion None — and false for every other of the 64x64x7 move values; new_legal used through its contract"
+// @ob id=O1.9 props=C01 tier=quick kind=bounded weight=light bound="generator with at most 3 slots of at most 2,1,1 destinations standing for the legal-move list" fn="Board::legal" desc="the single-move legality query answers true exactly for the (source, destination, promotion) triples the generator would yield — promotion slots yield exactly the four promotion pieces, other slots exactly promotion None — and false for every other of the 64x64x7 move values; new_legal used through its contract"
 #[kani::proof]
 #[kani::unwind(24)]
 #[kani::stub(crate::movegen::MoveGen::new_legal, any_small_fresh_gen)]
